@@ -64,7 +64,10 @@ def lexical(ctx, conv):
             v = -v
         return sign + d, ("int", v)
     if isinstance(conv, Types.Decimal):
-        shape = ctx.choice("shape", [(2, 2, "."), (1, 2, ","), (1, 0, ""), (27, 3, ".")] if QUICK[0] else [(1, 0, ""), (2, 2, "."), (1, 2, ","), (0, 2, "."), (3, 1, ","), (27, 3, "."), (30, 2, ",")])
+        shape = ctx.choice("shape", [(2, 2, "."), (1, 2, ","), (1, 0, ""), (27, 3, "."), (1, 3, ","), (3, 3, ",")] if QUICK[0] else
+                           [(1, 0, ""), (2, 2, "."), (1, 2, ","), (0, 2, "."), (3, 1, ","), (27, 3, "."), (30, 2, ","),
+                            # texts that look like digit grouping (1,234 / 999,875 / 12.500 / 1,234567): the separator is a decimal point all the same
+                            (1, 3, ","), (2, 3, ","), (3, 3, ","), (1, 3, "."), (3, 3, "."), (1, 6, ",")])
         ni, nf, sep = shape
         sign = ctx.choice("sign", ["", "+", "-"])
         di = ctx.str("i", ni, "0-9") if ni else ""
